@@ -532,6 +532,25 @@ class Gen:
     def update(self):
         rng = self.rng
         r = rng.random()
+        seqs = [p for p in doc_paths(self.doc) if isinstance(_get(self.doc, p), list) and len(_get(self.doc, p)) >= 1] if self.doc is not None else []
+        if r < 0.07 and seqs:
+            # several context nodes, each updated relative to itself: `P[] | (.k = .j)`, `P[] | (.k |= f)`, `P[] | (.k += .j)`
+            P = path_expr(rng.choice(seqs)) if rng.random() < 0.8 else ("self",)
+            k1, k2 = rng.choice(KEYS), rng.choice(KEYS)
+            rhs = rng.choice([("getkey", k2), ("add", ("getkey", k2), lit(1)), ("self",), ("pipe", ("getkey", k2), ("length",))])
+            tgt = rng.choice([("getkey", k1), ("index", ("self",), lit(0)), ("self",)])
+            u = rng.choice([("assign", tgt, rhs), ("update", tgt, ("add", ("self",), lit(1))), ("compound", "add", tgt, rhs)])
+            return ("pipe", ("index", P, None), u)
+        if r < 0.13 and seqs:
+            # an update that leaves duplicate recorded keys behind (appended / re-collected elements), then every element once more
+            sp = rng.choice(seqs)
+            P = path_expr(sp)
+            first = rng.choice([("compound", "add", P, ("collect", ("union", lit(7), lit(8)))),
+                                ("assign", P, ("collect", ("union", ("index", P, lit(0)), ("index", P, lit(0))))),
+                                ("update", P, ("add", ("self",), ("self",))), ("update", P, ("reverse",))])
+            second = rng.choice([("compound", "add", ("index", P, None), lit(1)), ("update", ("index", P, None), ("length",)),
+                                 ("assign", ("index", P, None), lit(0)), ("compound", "add", ("index", P, lit(-1)), lit(1))])
+            return ("pipe", first, second)
         if r < 0.35:
             return ("assign", self.lhs(), self.value_expr())
         if r < 0.6:
